@@ -147,6 +147,47 @@ def spec_mean(rep, a, fv):
     return If(fv, a + K + T, a + T)        # TILDE: cut-off radius 0 (finite variation) or 1
 
 
+class DriftUsesTheCellsOfTheRates(Lemma):
+    """compute_mu_h against create_q_vector (both real bodies) on a 5-state axis whose cell boundaries are given by an ABSTRACT
+    grid.middle (a grid that places its boundaries by mass, as the probability-step grid does, is an instance): mu_h is the
+    sum over the non-origin states of state x rate with the SAME cells -- whatever the grid calls the middle of two states."""
+    prop = "C04"
+    name = "property:drift-compensation-uses-the-cells-of-the-rates"
+
+    def prove(self, vc, case):
+        it = vc.interp
+        MID = z3.Function("GRID_MIDDLE", z3.RealSort(), z3.RealSort(), z3.RealSort())
+        mid = lambda it_, f, b: Sym(MID(as_real_term(lift(b["xi"])), as_real_term(lift(b["xip"]))), "r")
+        it.hooks[SP + "CTMCGrid.middle"] = mid
+        it.hooks[SP + "CTMCGrid.middle.register[float]"] = mid          # the single-dispatch variant for two scalars
+        it.hooks[LM + "LevyMeasure.integrate"] = lambda it_, f, b: MU(b["a"], b["b"])
+        xs = vc.reals("state", 5)
+        h = vc.real("h")
+        vc.assume(And(xs[0] < xs[1], xs[1] < 0, xs[2] == 0, 0 < xs[3], xs[3] < xs[4], h > 0, xs[1] == -h, xs[3] == h))
+        axis = np.array(xs, dtype=object)
+        grid = vc.new(SP + "CTMCGrid", h, 2, [axis])
+        nu = vc.obj(LM + "LevyMeasure")
+        q = list(np.ravel(np.asarray(it.call(it.get_function("rpylib.distribution.samplingfactory:create_q_vector"), [nu, grid], {}), dtype=object)))
+        mu = it.call(it.get_function(MC + "compute_mu_h"), [nu, grid, axis, 2], {})
+        vc.check(self.name + "::one-rate-per-state", len(q) == 5)
+        if len(q) == 5:
+            vc.check(self.name + "::mu_h-is-the-rate-weighted-sum-of-the-states", compare(mu, sum((xs[j] * q[j] for j in (0, 1, 3, 4)), 0.0), "=="))
+
+    def replay(self, model, clause, case):
+        from contracts import battery
+        from rpylib.grid.spatial import CTMCGridProbabilityStep
+        from rpylib.distribution.samplingfactory import create_q_vector
+        from rpylib.process.markovchain.markovchain import compute_mu_h
+        m = battery.models(("hem",))["hem"]
+        grid = CTMCGridProbabilityStep(h=0.05, model=m, minimum_probability_step=0.05)
+        nu = m.levy_triplet.nu
+        ax, o = grid.axes[0], grid.origin_coordinate.value
+        q = np.asarray(create_q_vector(nu, grid), float)
+        mu = float(compute_mu_h(nu, grid, ax, o))
+        want = float(np.sum(np.asarray(ax, float) * q))
+        return (abs(mu - want) > 1e-10 * max(1.0, abs(want)), {"grid": "CTMCGridProbabilityStep h=0.05 (HEM)", "mu_h": mu, "sum_of_state_times_rate": want})
+
+
 class Representations(Lemma):
     """every change of representation preserves the mean of the process; hence conversions are path-independent and
     reversible (the drift is determined by the mean and the representation).  Real bodies of set_representation and
@@ -857,7 +898,7 @@ class CopulaMarginMean(Lemma):
         return (abs(chain - mean) > 1e-6, {"margins": "HEM (finite variation) + CGMY y=1.3", "HEM_margin_chain_mean": chain, "HEM_truncated_mean": float(mean)})
 
 
-UNITS = [ComputeMuH(), Representations(), Initialisation(), MeanIdentity(), VolAdjustment(), VolAdjustmentWideCell(), ChainConstructor(), CopulaInitialisation(), CopulaChainConstructor(), CopulaDiffusionMatrix(), CopulaVariationFlag(), CopulaMarginMean()]
+UNITS = [ComputeMuH(), DriftUsesTheCellsOfTheRates(), Representations(), Initialisation(), MeanIdentity(), VolAdjustment(), VolAdjustmentWideCell(), ChainConstructor(), CopulaInitialisation(), CopulaChainConstructor(), CopulaDiffusionMatrix(), CopulaVariationFlag(), CopulaMarginMean()]
 ASSUMPTIONS = ["A1: floats are mathematical reals", "A6: integrate_against_x / xx are additive interval functions of a measure (C09)",
                "the first-moment integrals K, T are finite where a representation needs them (as the library assumes)"]
 TRUSTED_BASE = ["z3 5.1 (LRA/NRA + arrays + uninterpreted functions)", "pyvc interpreter + numpy models"]
@@ -873,13 +914,16 @@ class MeanBattery:
     def run(self, tier, seed):
         from contracts import battery
         from scipy.integrate import quad
-        from rpylib.grid.spatial import CTMCUniformGrid, CTMCGridGeometric
+        from rpylib.grid.spatial import CTMCUniformGrid, CTMCGridGeometric, CTMCGridProbabilityStep
         from rpylib.process.markovchain.markovchain import MarkovChainProcess
         from rpylib.distribution.sampling import SamplingMethod
         ev, viol, samples = 0, {}, []
         for name, m in battery.models().items():
             for h in ((0.05,) if tier == "quick" else (0.1, 0.05, 0.02)):
-                for grid in (CTMCUniformGrid(h=h, model=m), CTMCGridGeometric(h=h, model=m, nb_of_points_on_each_side=5)):
+                # (the probability-step grid places its cell boundaries by mass, not at the arithmetic mid-points: the drift
+                # compensation must use the same cells as the rates)
+                for grid in (CTMCUniformGrid(h=h, model=m), CTMCGridGeometric(h=h, model=m, nb_of_points_on_each_side=5),
+                             CTMCGridProbabilityStep(h=h, model=m, minimum_probability_step=0.05)):
                     for level in range(2):
                         ev += 1
                         d, info = battery.chain_mean_defect(m, grid)
